@@ -452,6 +452,61 @@ def rule_r6(chk, F, cg):
     r.floor("thread natives", found, 7)
 
 
+def rule_r7(chk, F, c, cg):
+    r = chk.rule("C09.R7", "the runtime writes the lock word of a managed mutex/condition only while holding the "
+                           "wait-list lock (inside the predicate closure of conditionally_enqueue or in the lock's "
+                           "guard scope): the word and the queue must change together")
+    writes = {"store", "swap", "fetch_add", "fetch_sub", "fetch_or", "fetch_and", "compare_exchange",
+              "compare_exchange_weak", "fetch_update"}
+    n = 0
+
+    def visit(node, in_pred_closure, fnpath, file):
+        nonlocal n
+        if not hirq.is_node(node):
+            if isinstance(node, list):
+                for x in node:
+                    visit(x, in_pred_closure, fnpath, file)
+            return
+        if node[0] in ("call", "mcall"):
+            cs = hirq.CallSite(node)
+            if cs.callee and cs.callee.endswith("WaitLists::conditionally_enqueue"):
+                for a in cs.all_args():
+                    a2 = hirq.strip(a)
+                    visit(a, hirq.is_node(a2) and a2[0] == "closure", fnpath, file)
+                return
+            if cs.is_method and cs.name in writes and cs.recv is not None:
+                rc = hirq.strip(cs.recv)
+                if hirq.is_node(rc) and rc[0] == "field" and rc[2] == "state" and len(rc) > 3 and (
+                        rc[3].endswith("waitlists::ManagedCondition") or rc[3].endswith("waitlists::ManagedMutex")):
+                    n += 1
+                    key = "%s:%s.state.%s" % (fnpath, last(rc[3]), cs.name)
+                    held = in_pred_closure
+                    if not held:
+                        # guard scope of the wait-list lock in the enclosing function (MIR)
+                        B = cg.body(fnpath)
+                        if B is not None:
+                            for lk in [x for x in B.calls if x.name == LOCK and "ObjectHashMap" in B.local_ty(x.dest[0])]:
+                                scope = guard_scope(B, lk)
+                                for x in B.calls:
+                                    if x.name and x.name.startswith("core::sync::atomic::Atomic") and \
+                                            last(x.name) == cs.name and x.line == cs.line and x.block in scope:
+                                        held = True
+                    r.instance(key, sample={"fn": fnpath, "op": cs.name, "under_waitlist_lock": held})
+                    if not held:
+                        r.violation(key + ":outside-waitlist-lock",
+                                    "the lock word/waiter flag of a managed %s is written outside the wait-list lock: "
+                                    "a thread that enqueues itself between the queue update and this store has its "
+                                    "flag overwritten — later notifications return early and the waiter sleeps forever"
+                                    % last(rc[3]), "%s:%d" % (file, cs.line))
+        for x in node[1:]:
+            if isinstance(x, list):
+                visit(x, in_pred_closure, fnpath, file)
+
+    for p, b in sorted(c.hir.items()):
+        visit(b["body"], False, p, b["file"])
+    r.floor("runtime writes to managed lock words", n, 1)
+
+
 def run(chk, F):
     c = F.crate("dora_runtime")
     cg = CallGraph(F, libs=["dora_runtime", "dora_compiler"], bins=[])
@@ -461,6 +516,7 @@ def run(chk, F):
     rule_r4(chk, c, cg)
     rule_r5(chk, F)
     rule_r6(chk, F, cg)
+    rule_r7(chk, F, c, cg)
     chk.assumptions += [
         "decides ordering/atomicity shapes; mutual exclusion and absence of lost wake-ups over all interleavings of "
         "the lock-word protocol are not decided (model checking)",
